@@ -317,13 +317,20 @@ theorem pipeline_good : ∀ f : Nat, GPlt f (parsePipeline f) := by
     exact pipelineWith_good (f + 1) _ (node_good f _ ih)
 
 /-- **totality**: the verdict of the model is `ok` or `err`, never "out of fuel" -/
-theorem parseVpl_ne_oof (s : Str) : (match parseVpl s with | .oof => False | _ => True) := by
+theorem parseVplCore_ne_oof (s : Str) : (match parseVplCore s with | .oof => False | _ => True) := by
   have h := pipeline_good (s.length + 1) s (Nat.lt_succ_self _)
-  simp only [parseVpl]
+  simp only [parseVplCore]
   cases hp : parsePipeline (s.length + 1) s with
   | ok r v => cases r <;> trivial
   | error => trivial
   | failure => trivial
   | oof => rw [hp] at h; exact h
+
+theorem parseVpl_ne_oof (s : Str) : (match parseVpl s with | .oof => False | _ => True) := by
+  by_cases hd : bracketDepth s ≤ maxNesting
+  · have : parseVpl s = parseVplCore s := by simp only [parseVpl, hd, if_true]
+    rw [this]; exact parseVplCore_ne_oof s
+  · have : parseVpl s = .err := by simp only [parseVpl, hd, if_false]
+    rw [this]; trivial
 
 end VtModel.Vpl
